@@ -13,7 +13,7 @@ Inductive sop := S_ | O_ | R_.
 Record scase := mkcase { c_noise : bool; c_kind : Z; c_init : float; c_gamma : float; c_ssz : Z;
                          c_lam : Z; c_ops : list sop; c_expect : list float }.
 Definition blank : ss float := mkss 0%Z n0 0%Z n0 (fun _ => n0) n0.
-Definition construct (c : scase) : result (ss float * unit) :=
+Definition construct (c : scase) : sres (ss float) unit :=
   if c_noise c then
     match c_kind c with
     | 0%Z => noise_exp_init blank (c_init c) (c_gamma c) (-1)
@@ -26,24 +26,26 @@ Definition construct (c : scase) : result (ss float * unit) :=
     | 1%Z => clip_stepc_init blank (c_init c) (c_ssz c) (c_gamma c) (-1)
     | _ => clip_lambda_init blank (c_init c) (lamf (c_lam c)) (-1)
     end.
-Definition stepf (c : scase) : ss float -> result (ss float * unit) :=
+Definition stepf (c : scase) : ss float -> sres (ss float) unit :=
   if c_noise c then
     noise_step (match c_kind c with 0%Z => noise_exp_get | 1%Z => noise_step_get | _ => noise_lambda_get end)
   else
     clip_step (match c_kind c with 0%Z => clip_exp_get | 1%Z => clip_step_get | _ => clip_lambda_get end).
+Definition ofs {A} (r : sres (ss float) A) : result (ss float) :=
+  match r with SOk s _ => Ok s | SErr _ e => Err e end.
 Definition restore (c : scase) (s : ss float) : result (ss float) :=
-  bind (construct c) (fun '(fresh, _) =>
+  bind (ofs (construct c)) (fun fresh =>
     Ok (if c_noise c then noise_load_state_dict fresh (noise_state_dict s)
         else clip_load_state_dict fresh (clip_state_dict s))).
 Fixpoint runops (c : scase) (ops : list sop) (s : ss float) : result (list float) :=
   match ops with
   | [] => Ok []
   | o :: r =>
-      bind (match o with S_ => bind (stepf c s) (fun '(s', _) => Ok s') | O_ => Ok s | R_ => restore c s end)
+      bind (match o with S_ => ofs (stepf c s) | O_ => Ok s | R_ => restore c s end)
            (fun s' => bind (runops c r s') (fun l => Ok (f_oval s' :: l)))
   end.
 Definition traj (c : scase) : result (list float) :=
-  bind (construct c) (fun '(s, _) => bind (runops c (c_ops c) s) (fun l => Ok (f_oval s :: l))).
+  bind (ofs (construct c)) (fun s => bind (runops c (c_ops c) s) (fun l => Ok (f_oval s :: l))).
 Fixpoint feq_list (a b : list float) : bool :=
   match a, b with [], [] => true | x :: a', y :: b' => PrimFloat.eqb x y && feq_list a' b' | _, _ => false end.
 Definition case_ok (c : scase) : bool :=
